@@ -116,7 +116,8 @@ def write_case(case, d):
         names = []
         for i, pw in enumerate(case['powers']):
             nm = f'power_{i + 1}.csv'
-            write_power_csv({'power': pw}, os.path.join(d, nm))
+            write_power_csv({'power': pw, 'csv_rows': case.get('csv_rows')},
+                            os.path.join(d, nm))
             names.append(nm)
         out.append('    user_power = ' + ', '.join(names))
     elif case.get('power') is not None:
@@ -204,6 +205,10 @@ def write_power_csv(case, path):
                         [str(int(aid)), str(ci + 1), repr(float(z[c])),
                          repr(float(z[c + 1])), str(i + 1)]
                         + [repr(float(x)) for x in coeffs]))
+    # the rows of a file may come in any order: grouped by component across
+    # the assemblies instead of by assembly (case['csv_rows'])
+    if case.get('csv_rows') == 'by-component':
+        rows.sort(key=lambda r: (int(r.split(',')[1]), int(r.split(',')[0])))
     with open(path, 'w') as f:
         f.write('\n'.join(rows) + '\n')
 
